@@ -280,7 +280,7 @@ theorem cdn_classify_tie (status : Nat) (ra : Option (List Char)) (k : Nat) :
   by_cases h2 : 200 ≤ status ∧ status < 300
   · simp [h2]
   · by_cases h4 : status = 429
-    · simp [h2, h4, parseRetryAfter, RetrySrc.retry_after_bits, RetrySrc.retry_after_unit_ns]
+    · simp [h4, parseRetryAfter, RetrySrc.retry_after_bits, RetrySrc.retry_after_unit_ns]
     · by_cases h5 : 500 ≤ status ∧ status < 600
       · simp [h2, h4, h5]
       · simp [h2, h4, h5]
